@@ -100,7 +100,7 @@ func init() {
 	// turn replaced by fully symbolic bytes
 	fileInstances := func(harness, tier string, variants [][]string) []*HarnessCfg {
 		var r []*HarnessCfg
-		kinds := []string{"init", "plain", "seg", "seg2f", "2seg", "sidx2", "nostyp", "emsg", "mfra"}
+		kinds := []string{"init", "plain", "seg", "seg2f", "2seg", "sidx2", "nostyp", "emsg", "mfra", "2trenc"}
 		for _, k := range kinds {
 			maxLeaf := 26
 			for leaf := -1; leaf < maxLeaf; leaf++ {
@@ -140,12 +140,24 @@ func init() {
 			r := boxInstances(L, "VerifC01Box", tierN(tier, -128, 96), tierW(tier, 3, 20), [][]string{{"false", "false"}, {"false", "true"}}, false)
 			r = append(r, boxInstances(L, "VerifC01Box", tierN(tier, -32, 40), tierW(tier, 2, 10), [][]string{{"true", "false"}}, false)...)
 			r = append(r, fileInstances("VerifC01File", tier, [][]string{{"false"}, {"true"}})...)
+			// esds from a descriptor skeleton (the generic exploration does not reach a decoded esds)
+			for sh := 0; sh < 32; sh++ {
+				if tier != "thorough" && sh%3 == 1 {
+					continue
+				}
+				for _, rd := range []string{"false", "true"} {
+					c := inst(mod+"/mp4", "VerifC01Esds", itoa(sh), rd)
+					c.PanicIsViol = false
+					c.MaxWallS = tierW(tier, 20, 120)
+					r = append(r, c)
+				}
+			}
 			return r
 		},
 		Bounds: func(tier string) map[string]interface{} {
 			return map[string]interface{}{"box_body_bytes_max": tierN(tier, 40, 128), "large_header_body_bytes_max": tierN(tier, 24, 64), "per_instance_time_cap_s": tierW(tier, 4, 60)}
 		},
-		Covers: []string{"decoded"}, RequireCovers: true,
+		Covers: []string{"decoded", "esds decoded"}, RequireCovers: true,
 	}
 	// calibration run (not a registered check): which (type, body length) pairs have a decode
 	// success path. Used only to select the quick tier's instances.
@@ -535,6 +547,14 @@ func init() {
 			for _, lay := range []string{"TfTM", "TTfM", "TfTfM"} {
 				for _, fl := range []string{"0", "1", "2", "3"} {
 					r = append(r, inst(p, "VerifC12Grouping", lay, fl, "false"))
+				}
+			}
+			// segments delimited by a top-level sidx, with and without an emsg at a segment start
+			for _, lay := range []string{"XTfT", "XTTf", "XTfTET", "XTETEf", "XTEfTE"} {
+				for _, fl := range []string{"0", "2"} {
+					for _, srp := range []string{"false", "true"} {
+						r = append(r, inst(p, "VerifC12Grouping", lay, fl, srp))
+					}
 				}
 			}
 			for _, c := range r {
